@@ -77,6 +77,19 @@ def _with(entity, attr, value):
     return entity
 
 
+def _concat_hole(ws):
+    from geoh5py.groups import DrillholeGroup
+    from geoh5py.objects import Drillhole
+    g = DrillholeGroup.create(ws, name="DHG")
+    h = Drillhole.create(ws, parent=g, name="hole", collar=[1.0, 2.0, 3.0], surveys=real_np.c_[[0.0, 10.0], [0.0, 10.0], [-90.0, -80.0]])
+    h.add_data({"log": {"depth": real_np.array([1.0, 2.0]), "values": real_np.array([5.0, 6.0])}})
+    return h
+
+
+def _concat_data(ws):
+    return _concat_hole(ws).get_data("log")[0]
+
+
 def _floatdata(ws):
     p = _points(ws)
     return p.add_data({"fd": {"values": real_np.array([1.0, 2.0, 3.0])}})
@@ -253,6 +266,10 @@ CASES = {
     "Drillhole.cost(int-created)": (_drillhole_int_cost, "cost", v_real("r"), DH),
     "Drillhole.end_of_hole(int-created)": (_drillhole_int_eoh, "end_of_hole", v_real("r"), DH),
     "Drillhole.planning": (_drillhole, "planning", v_const("Ongoing"), DH),
+    "ConcatenatedDrillhole.name": (_concat_hole, "name", v_const("renamed hole"), DH),
+    "ConcatenatedDrillhole.cost": (_concat_hole, "cost", v_const(12.5), DH),
+    "ConcatenatedDrillhole.public": (_concat_hole, "public", v_const(False), DH),
+    "ConcatenatedData.name": (_concat_data, "name", v_const("renamed log"), ()),
     "FloatData.values": (_floatdata, "values", v_float_values, ()),
     "FloatData.name": (_floatdata, "name", v_const("renamed"), ()),
     "FloatData.visible": (_floatdata, "visible", v_const(False), ()),
@@ -359,6 +376,22 @@ class SetAttribute(Scenario):
         ws = Workspace()
         factory = CASES[keys[0]][0]
         ent = factory(ws) if factory is not None else ws
+        if self.params.get("reopen_first") and ent is not ws:
+            # the assignment happens in a later session: the entity is loaded lazily from the file
+            uid0 = ent.uid
+            was_type = isinstance(ent, EntityType)
+            ws.close()
+            ws = Workspace(ws.h5file)
+            if was_type:
+                ent = [t for t in ws.types if t.uid == uid0][0]
+            else:
+                ent = ws.get_entity(uid0)[0]
+                if ent is None:     # concatenated children are reached through their group
+                    for grp in ws.groups:
+                        for ch in getattr(grp, "children", []):
+                            for c2 in [ch] + list(getattr(ch, "children", [])):
+                                if getattr(c2, "uid", None) == uid0:
+                                    ent = c2
         calls = []
         real_update = ws.update_attribute
 
@@ -419,6 +452,12 @@ class SetAttribute(Scenario):
                         e2 = t
             else:
                 e2 = ws2.get_entity(uid)[0]
+                if e2 is None:
+                    for grp in ws2.groups:
+                        for ch in getattr(grp, "children", []):
+                            for c2 in [ch] + list(getattr(ch, "children", [])):
+                                if getattr(c2, "uid", None) == uid:
+                                    e2 = c2
             cx.prove(e2 is not None, f"{keys[0]}: entity found again in the file", "stored == in-memory")
             if e2 is not None:
                 for key, attr, _ in accepted:
@@ -469,8 +508,14 @@ def discovered_pairs():
     return out
 
 
+REOPEN_QUICK = ["ConcatenatedDrillhole.name", "ConcatenatedDrillhole.cost", "ConcatenatedData.name", "Grid2D.rotation",
+                "Curve.cells", "FloatData.values", "Points.name", "DataType.name", "Drillhole.collar", "BlockModel.z_cell_delimiters",
+                "Octree.octree_cells", "Points.metadata"]
+
+
 def scenarios(tier, seed):
     S = [SetAttribute(cases=[k]) for k in CASES]
+    S += [SetAttribute(cases=[k], reopen_first=True) for k in (REOPEN_QUICK if tier == "quick" else CASES) if not k.startswith("Workspace.")]
     if tier == "thorough":
         for a, b in ORDER_PAIRS:
             S.append(SetAttribute(cases=[a, b]))
